@@ -5,8 +5,8 @@ set -e
 props=$1; key=$2
 cd /repo
 git apply --check /verif/fixes/$key.patch
-git apply /verif/fixes/$key.patch
-git add -u
+git apply --index /verif/fixes/$key.patch
+# (staged by --index)
 git commit -q -F /verif/fixes/$key.msg
 H=$(git log --format=%h -1)
 python3 - "$props" "$key" "$H" <<'PY'
